@@ -160,8 +160,35 @@ class _Subst(ast.NodeTransformer):
         return node
 
 
+class _Fold(ast.NodeTransformer):
+    """after a constant argument was substituted for a parameter: `a if True else b` -> a, `if False: .. else: B` -> B, `not True` -> False"""
+    def visit_UnaryOp(self, node):
+        self.generic_visit(node)
+        if isinstance(node.op, ast.Not) and isinstance(node.operand, ast.Constant) and isinstance(node.operand.value, bool):
+            return ast.copy_location(ast.Constant(value=not node.operand.value), node)
+        return node
+
+    def visit_IfExp(self, node):
+        self.generic_visit(node)
+        if isinstance(node.test, ast.Constant) and isinstance(node.test.value, (bool, int)) and not isinstance(node.test.value, str):
+            return node.body if node.test.value else node.orelse
+        return node
+
+    def visit_If(self, node):
+        self.generic_visit(node)
+        if isinstance(node.test, ast.Constant) and isinstance(node.test.value, bool):
+            blk = node.body if node.test.value else node.orelse
+            return blk if blk else ast.copy_location(ast.Pass(), node)
+        return node
+
+
 def subst(node, mapping):
-    return _Subst(mapping).visit(copy.deepcopy(node)) if mapping else copy.deepcopy(node)
+    if not mapping:
+        return copy.deepcopy(node)
+    out = _Subst(mapping).visit(copy.deepcopy(node))
+    if any(isinstance(v, ast.Constant) and isinstance(v.value, bool) for v in mapping.values() if not isinstance(v, str)):
+        out = _Fold().visit(out)
+    return out
 
 
 def count_loads(nodes, name):
@@ -517,7 +544,7 @@ class Inliner:
                 continue  # the caller's variable of that name is overwritten by this very statement
             if loc in arg_names or (loc in host_names and (not self.stack or live_after(self.stack, loc))):
                 mapping[loc] = f'{loc}__{h.node.name.strip("_")}'
-        prefix = binds + [subst(st, mapping) for st in h.prefix]
+        prefix = binds + _flat_stmts(subst(st, mapping) for st in h.prefix)
         result = subst(h.result, mapping) if h.result is not None else None
         if h.tail and result is None:
             if stmt is None or not isinstance(stmt, (ast.Expr, ast.Assign, ast.AugAssign, ast.AnnAssign, ast.Return)):
@@ -535,7 +562,7 @@ class Inliner:
                     if _self_assignment(c):
                         return []
                 return [c]
-            tail = [subst(st, mapping) for st in h.tail]
+            tail = _flat_stmts(subst(st, mapping) for st in h.tail)
             prefix = prefix + tail_statements(tail, make)
             relocate(prefix, call)
             self.count += 1
@@ -699,6 +726,16 @@ def _pure_before(root, target):
                 dirty = True
         return True
     return rec(root)
+
+
+def _flat_stmts(items):
+    out = []
+    for x in items:
+        if isinstance(x, list):
+            out.extend(x)
+        else:
+            out.append(x)
+    return out
 
 
 def _put(parent, field, idx, node):
